@@ -151,6 +151,13 @@ def rule_PL2(ctx, tier):
     head = nexts[0]
     starts = _loop_some_edges(ctx, b, head)
     rm = {bb for bb in sites_containing(b, "HashSet", "::remove") if "f:pending_appointments" in og.show(arg_origin(ctx, b, bb, 0))}
+    # the in-memory pending set is only ever shrunk one delivered/settled locator at a time: emptying it wholesale
+    # (take / replace / drain / clear) forgets the rest of the batch whenever run() leaves early
+    for bb, t in b.calls():
+        tgt = call_target(t) or ""
+        if tgt.endswith(("mem::take", "mem::replace", "mem::swap")) or (("HashSet" in tgt) and tgt.endswith(("::drain", "::clear", "::retain"))):
+            if "f:pending_appointments" in og.show(arg_origin(ctx, b, bb, 0)):
+                rr.fail("pending-set-bulk-removed:%s" % tgt.split("::")[-1], "Retrier::run empties the retrier's pending set wholesale (`%s`): when run() returns early (tower unreachable, subscription error, misbehaviour) the not-yet-sent locators are no longer scheduled" % tgt, where=b.line_of(bb))
     if not starts or not rm:
         rr.fail("loop-shape", "cannot find the loop edge / pending_appointments.remove in Retrier::run", where=b.span)
         return rr
